@@ -88,6 +88,12 @@ def handle : Json → Except String Json := fun j => do
     let d ← decodeDict (← j.getObjVal? "d")
     let frames ← getStrList j "frames"
     pure (resAccepted (perceptionConfig d frames))
+  | "config_targets" => do
+    -- audit round 2: the converted target-label list of a perception configuration (label member names)
+    let d ← decodeDict (← j.getObjVal? "d")
+    pure (match configTargetLabels d with
+      | .ok L => Json.mkObj [("ok", jList Json.str L)]
+      | .error e => Json.mkObj [("err", e)])
   | "sensing_config" => do
     let d ← decodeDict (← j.getObjVal? "d")
     let frames ← getStrList j "frames"
